@@ -78,7 +78,7 @@ PROPS = {
     ),
     'C17': dict(
         title='Every error points at the token that caused it',
-        verus_units=['state'],
+        verus_units=['state', 'compile'],
         kani_groups=[],
         design_ref='DESIGN.md section 5 / C17',
         technique='Verus: fetch_and_run leaves ctx.ip on the failing instruction (so the debug-map lookup names its token); debug-map/code invariants on the emitters',
@@ -87,6 +87,56 @@ PROPS = {
         level_note='NOT decided: line/column arithmetic of token_location (string code), that build-time errors carry the failing token (next_name and all immediate words).',
         not_decided=['token_location line/column computation', 'build-time error token for every immediate word'],
     ),
+    'C01': dict(
+        title='Structured control flow compiles to bytecode that means what the source says',
+        verus_units=['compile', 'state'],
+        kani_groups=['opcodes.rs'],
+        design_ref='DESIGN.md section 5 / C01',
+        technique='Kani full-domain proof of the jump codec; Verus backpatch contracts on every immediate control word over a pending-flow invariant '
+                  '(each open construct owns one placeholder of the right kind, no two share one); Verus contract on loop_next/do_init/fetch_and_run',
+        level_text='Partial (the three layers every nesting is built from, not their composition). Proved for all code sizes and flow-stack contents: '
+                   '(1) decoding a relative jump at its origin yields its destination, including distance 0 (Kani, complete); (2) each closing word removes '
+                   'exactly its opening entry and patches its placeholder(s) to the structurally intended address - then: current origin; else/endof: '
+                   'behind the emitted jump; until/repeat: back to begin, breaks and while behind the loop; loop: Loop->body, Do and breaks->behind the loop; '
+                   'endcase: every endof jump to the current origin - touching no other cell, and the panic!("not a jump instruction") is unreachable; '
+                   '(3) the VM primitives the opcodes are built from (loop_next, do_init, push/pop loop) against their machine-state functions.',
+        level_note='ASSUMED and unchecked: take_first_cond_flow (Verus rejects `continue` in `for`; State-level code is out of Kani\'s reach) with the literal '
+                   'contract of its loop (tfc_index). NOT decided: that composing the layers over an arbitrary nesting equals a structural evaluation '
+                   '(induction over program structure through build1 and 250 native words); word definitions/locals allocation; per-opcode functional '
+                   'semantics of fetch_and_run beyond the reverse/limit contract.',
+        not_decided=['composition of the three layers over arbitrary nestings (compiler correctness proper)',
+                     'definitions, redefinition, recursion, locals allocation', 'take_first_cond_flow body'],
+    ),
+    'C10': dict(
+        title='A source that fails to build has no effect on anything submitted afterwards',
+        verus_units=['compile'],
+        kani_groups=[],
+        design_ref='DESIGN.md section 5 / C10',
+        technique='Verus contracts on build_from_source/build_from_file/build_mark/build_abort/context_open (build0, intern_source assumed)',
+        level_text='Deductive proof for all states: when the build of a source fails, build_abort restores nesting, context (mode, stack base), pending '
+                   'inputs, pending flow, code, debug map, dictionary, return/loop/special stacks, data-stack height and the reverse log to the marks taken '
+                   'before the source was opened; build_from_source/file call it on every failing build and return with the nesting they were entered with.',
+        level_note='Assumed: build0 (the token loop and every immediate word) only nests deeper and leaves the bookkeeping consistent; intern_source. '
+                   'NOT decided: the REPL\'s run_line (closure), run-time failures (by design they leave the state for the debugger; the ip stays on the failing '
+                   'instruction - C17).',
+        not_decided=['a line that fails at RUN time is left as is (debugger semantics): not-re-executed clause is not decided',
+                     'REPL run_line / snapshot handling (closures, outside Verus)'],
+    ),
+    'C11': dict(
+        title='Meta-evaluation is sealed and equivalent to inlining its result',
+        verus_units=['compile', 'state'],
+        kani_groups=[],
+        design_ref='DESIGN.md section 5 / C11',
+        technique='Verus contracts on context_open/context_close (both loops verbatim), cell_ref_for_mode/swap_cell_ref/alloc_heap, code_emit_value',
+        level_text='Partial. Proved for all states: in MetaEval mode variable reads, writes and allocation fail and change nothing; opening a context of a '
+                   'different mode hides the whole outer data stack (ds_len := height); closing a meta context leaves the hidden part of the stack exactly as '
+                   'it was, truncates its code to the mark and re-emits only load-literal opcodes, and every dictionary entry it leaves is a constant; closing a '
+                   'Compile context changes nothing but the context (compiling executes nothing outside meta blocks).',
+        level_note='Assumed: run() keeps context marks/nesting/flow/code length and never touches the hidden part of the stack (closure, outside Verus; '
+                   'backed by the stack primitives\' contracts, which never reach below ctx.ds_len). NOT decided: equivalence with the inlined literal '
+                   '(compiler-level), eval == compile+run.',
+        not_decided=['behavioural equivalence with the inlined literal', 'eval == compile;run'],
+    ),
 }
 
 # properties not claimed: reason goes to MANIFEST.not_applicable
@@ -94,10 +144,9 @@ NOT_APPLICABLE = {
     'C03': 'clone independence is an aliasing property between two objects over later histories; Verus models Rc without identity/sharing and any Kani harness holding a State did not finish (>15 min): no contract within reach can express it',
     'C16': 'the lexer is str/char/parse code outside the Verus dialect and too heavy for Kani (Tok carries a Cell); printing goes through fmt; the bit-literal builder is covered under C04',
     'C18': 'the round-trip law lives entirely in the external base32/base64/z85 crates; assuming it would make the wrappers verify vacuously; the xeh-owned byte export is a C04 obligation',
-    'C01': 'unit not built yet in this round (jump codec, backpatch and opcode contracts planned, DESIGN.md section 5)',
  'C05': 'unit not built yet in this round', 'C06': 'unit not built yet in this round',
     'C07': 'unit not built yet in this round', 'C08': 'unit not built yet in this round', 'C09': 'unit not built yet in this round',
-    'C10': 'unit not built yet in this round', 'C11': 'unit not built yet in this round', 'C12': 'unit not built yet in this round',
+ 'C12': 'unit not built yet in this round',
     'C13': 'unit not built yet in this round',
 
 }
